@@ -1064,3 +1064,45 @@ def coq_eval_retry(pid, header, exprs, tag, per_file, rebuild, timeout=1500):
             raise
         cm.coq_build(rebuild)
         return cm.coq_eval_lines(pid, header, exprs, tag=tag, per_file=per_file, timeout=timeout)
+
+
+_SYM_AXES = [(1.0, 1.0, 0.0), (1.0, 0.0, 1.0), (0.0, 1.0, 1.0), (1.0, 1.0, 1.0), (1.0, -1.0, 0.0), (0.0, 0.0, 1.0), (1.0, 0.0, 0.0)]
+_SYM_ANGLES = [60.0, 120.0, 45.0, 30.0, 90.0, 180.0, 36.0]
+
+
+def symmetric_polytope_pair(rng):
+    """two overlapping boxes / cube hulls / cube meshes in a SYMMETRIC relative pose: concentric or at an offset on a 0.25 grid,
+    one of them rotated by 30/36/45/60/90/120/180 degrees about an axis, face diagonal or space diagonal.  In such placements
+    several faces of EPA's polytope are visible from a new support point at once and in every order of the face array (class
+    of the seeded change C19-3: the face swapped into a freed slot must be re-examined); on the unchanged code EPA converges."""
+    def rot(axis, deg):
+        a = np.array(axis, float)
+        a /= np.linalg.norm(a)
+        K = np.array([[0.0, -a[2], a[1]], [a[2], 0.0, -a[0]], [-a[1], a[0], 0.0]])
+        t = math.radians(deg)
+        return np.eye(3) + math.sin(t) * K + (1.0 - math.cos(t)) * (K @ K)
+
+    def poly(kind, size, pos, R):
+        if kind == "box":
+            return dict(kind="box", pose=nw.pose_of(R, pos), size=list(size))
+        pts = [[0.5 * size[0] * a, 0.5 * size[1] * b, 0.5 * size[2] * c] for a in (-1, 1) for b in (-1, 1) for c in (-1, 1)]
+        if kind == "mesh":
+            return dict(kind="mesh", pose=nw.pose_of(R, pos), vertices=pts)
+        return dict(kind="hull", vertices=(np.array(pts) @ np.array(R).T + np.array(pos)).tolist())
+    k1 = rng.choice(["hull", "box", "box", "mesh"])
+    k2 = rng.choice(["hull", "box", "box", "mesh"])
+    if rng.random() < 0.5:
+        s1 = [1.0, 1.0, 1.0]
+        s2 = [rng.choice([1.0, 1.0, 0.5, 2.0])] * 3
+    else:
+        s1 = [rng.choice([0.5, 1.0, 2.0]) for _ in range(3)]
+        s2 = list(s1) if rng.random() < 0.5 else [rng.choice([0.5, 1.0, 2.0]) for _ in range(3)]
+    R1 = np.eye(3) if rng.random() < 0.7 else rot(rng.choice(_SYM_AXES), rng.choice(_SYM_ANGLES))
+    R2 = rot(rng.choice(_SYM_AXES), rng.choice(_SYM_ANGLES))
+    p1 = [rng.choice([0.0, 0.0, 0.5, -1.0]) for _ in range(3)]
+    lim = 0.5 * min(min(s1), min(s2))
+    off = [0.0, 0.0, 0.0] if rng.random() < 0.3 else [rng.choice([0.0, 0.0, 0.25, -0.25, 0.125]) for _ in range(3)]
+    off = [max(-lim, min(lim, o)) for o in off]
+    a = poly(k1, s1, p1, R1)
+    b = poly(k2, s2, (np.array(p1) + np.array(off)).tolist(), R2)
+    return a, b, dict(stream="symmetric_polytopes", kinds=[k1, k2])
